@@ -65,6 +65,10 @@ CLAIMED = {
    technique="TLA+: ground-truth failing token from the structural reference (Src.tla) vs the token the design's debug map blames (Xeh.tla), checked by TLC on every failing generated program; location function enumerated by TLC; replay with varied layouts on the real crate",
    text="For every generated failing program TLC takes the position at which the structural reference stops as the ground truth and checks on the design that the debug map (kept index-aligned with the bytecode through every emit and back-patch) blames that token; each program is then laid out with varied line ends, tabs, multi-byte text and comments, evaluated after 0-2 earlier sources, and last_err_location() must name the right source, quote the failing token's exact byte range, its true line and column and its line. The line/column/quoted-line function is specified separately, enumerated by TLC over all prefixes of LF/CR/tab/space/ASCII/2-3-4-byte characters, and replayed on lex::token_location in isolation (the harness's own reference function is validated against the same enumeration).",
    note="Either token of a two-token construct may be blamed; end-of-input, meta-block, injected and included-text errors are not enumerated yet."),
+ "C18": dict(cat="exploration", design="5/C18",
+   technique="TLA+ input matrix (MC_C18.tla) generated by TLC; events recorded from the real crate validated by TLC against the algebraic trace specification Trace_TextCodec (learned bytes<->text map per codec)",
+   text="TLC generates the input matrix (byte strings of every length 0..12, at every bit alignment inside a parent bit-string so that the copying path is taken, and in every argument form; inputs that >bitstr rejects; texts containing never-valid characters) and the real interpreter runs the four encoders/decoders on it; TLC validates the recorded events against a trace specification that learns the bytes<->text map per codec and requires determinism, injectivity, decode(encode(b)) = b, nil for never-valid characters, never a decode error, and rejection by the encoder of exactly what >bitstr rejects or what is not whole bytes. A corrupted decode result is shown to be rejected on every run.",
+   note="Exploration level: the specification is a generator and an algebraic oracle; it does not model the third-party encoders, and the alphabets are deliberately not fixed."),
 }
 
 PENDING_REASON = "check not built yet in this build session (planned, DESIGN.md section 12); no claim is made for it"
